@@ -9,6 +9,8 @@ HERE="$(cd "$(dirname "$0")" && pwd)"
 export CARGO_NET_OFFLINE=true
 unset RUST_BACKTRACE RUST_LIB_BACKTRACE RUSTFLAGS CARGO_BUILD_RUSTFLAGS CARGO_ENCODED_RUSTFLAGS
 SEED="${VERIF_SEED:-1}"
+REPLAY=""
+if [ "$MODE" = replay ]; then REPLAY="$(realpath "${3:?replay file}")"; fi
 cd "$HERE/harness" || exit 2
 [ -f Cargo.lock ] || cp /repo/Cargo.lock Cargo.lock
 LOG="$HERE/harness/target/build-$$.log"
@@ -31,7 +33,7 @@ case "$MODE" in
     "$BIN" "$ID" --tier "$MODE" --seed "$SEED" --verif-dir "$HERE"
     rc=$? ;;
   replay)
-    "$BIN" "$ID" --replay "${3:?replay file}" --verif-dir "$HERE"
+    "$BIN" "$ID" --replay "$REPLAY" --verif-dir "$HERE"
     rc=$? ;;
   *) echo "unknown mode $MODE"; exit 2 ;;
 esac
